@@ -396,6 +396,14 @@ end SA.Socks
 #print axioms SA.Socks.C17_socks_app_close_releases
 #print axioms SA.Socks.C17_witness_socks_no_half_close
 
+namespace SA.Socks
+/-- both ends run the multiplexer with the library's default timing: the only field the code assigns is the frame size
+    (regenerated).  The keep-alive that ends a session is therefore smux's 30 s without any frame header read — a full
+    32 KiB frame crosses the slowest carrier in less (the `+slow` runs: 4 KiB/s). -/
+theorem C17_mux_timing_is_default :
+    Gen.smuxConfigAssignedServer = ["MaxFrameSize"] ∧ Gen.smuxConfigAssignedClient = ["MaxFrameSize"] := by decide
+end SA.Socks
+
 namespace SA.PkgState
 /-- **no_hidden_process_state**: the models of this property are functions of their arguments and of the objects they are
     handed; the packages they model keep no package-level variables besides these (regenerated inventory: error
@@ -408,3 +416,4 @@ theorem C17_no_hidden_process_state :
 end SA.PkgState
 
 #print axioms SA.PkgState.C17_no_hidden_process_state
+#print axioms SA.Socks.C17_mux_timing_is_default
